@@ -5,7 +5,7 @@ import hashlib
 import re
 
 from . import spec, hgen
-from .wtypes import Ty, tup, wit, decls, resources, has_heap, camel, snake
+from .wtypes import Ty, tup, wit, decls, aliases, resources, has_heap, camel, snake
 
 import os as _os
 NL = int(_os.environ.get('RUSTGEN_NL', '6'))   # heap ledger entries (quick tier; build_lib(nl=...) overrides)
@@ -13,8 +13,10 @@ NH = 6    # handle ledger entries
 
 
 class Func:
-    def __init__(self, name, params, result, cls, special=None, tier="quick", max_l=None):
+    def __init__(self, name, params, result, cls, special=None, tier="quick", max_l=None, fixed_l=None, max_s=None):
         self.max_l = max_l          # per-class cap of the list bound (nested heap data is expensive for CBMC)
+        self.fixed_l = fixed_l      # lists have exactly this CONCRETE length (element contents stay symbolic)
+        self.max_s = max_s          # per-class cap of the string bound
         self.name = name            # WIT name (kebab)
         self.params = params        # [(name, Ty)]
         self.result = result        # Ty | None
@@ -38,17 +40,34 @@ class World:
         self.imp_funcs = list(imp_funcs)
 
     def wit_text(self):
-        d = {}
+        d, al, res = {}, {}, {}
         for f in self.funcs:
-            for _, t in f.params:
+            for t in [t for _, t in f.params] + ([f.result] if f.result is not None else []):
                 decls(t, d)
-            if f.result is not None:
-                decls(f.result, d)
+                aliases(t, al)
+                resources(t, res)
+        di, ali = {}, {}
+        for f in self.imp_funcs:
+            for t in [t for _, t in f.params] + ([f.result] if f.result is not None else []):
+                decls(t, di)
+                aliases(t, ali)
+        al_all = dict(al)
+        al_all.update(ali)
         out = ["package t:p;", ""]
+        if al_all:
+            # plain type aliases live in their own interface and are reached through `use` (TypeDefKind::Type in the resolve)
+            out.append("interface tys {")
+            for n, w in al_all.items():
+                out.append("  type %s = %s;" % (n, w))
+            out.append("}")
         if self.imp_res or self.imp_funcs:
             out.append("interface ri {")
+            if ali:
+                out.append("  use tys.{%s};" % ", ".join(ali))
             for r in self.imp_res:
                 out.append("  resource %s { constructor(v: u32); get: func() -> u32; }" % r.name)
+            for v in di.values():
+                out.append("  " + v)
             for f in self.imp_funcs:
                 out.append("  %s: func(%s)%s;" % (f.name, ", ".join("%s: %s" % (n, wit(t)) for n, t in f.params),
                                                    "" if f.result is None else " -> " + wit(f.result)))
@@ -56,8 +75,13 @@ class World:
         out.append("interface x {")
         if self.imp_res:
             out.append("  use ri.{%s};" % ", ".join(r.name for r in self.imp_res))
+        if al:
+            out.append("  use tys.{%s};" % ", ".join(al))
         for r in self.exp_res:
             out.append("  resource %s { constructor(v: u32); get: func() -> u32; }" % r.name)
+        for r in res.values():
+            if r.alias_of is not None:
+                out.append("  type %s = %s;" % (r.name, r.alias_of.name))
         for v in d.values():
             out.append("  " + v)
         for f in self.funcs:
@@ -307,7 +331,12 @@ def func_harness(world, f, exports, post, traits, opts, L, S, res_ids):
     """-> (text, meta) for one exported function; raises ValueError on a structural mismatch it cannot express"""
     if f.max_l is not None:
         L = min(L, f.max_l)
+    if f.max_s is not None:
+        S = min(S, f.max_s)
+    if f.fixed_l is not None:
+        L = f.fixed_l
     ctx = hgen.Ctx(opts, L, S)
+    ctx.fixed = f.fixed_l is not None
     name = f.rust
     if name not in exports:
         raise ValueError("_export_%s_cabi not found in the generated module" % name)
@@ -386,10 +415,10 @@ def func_harness(world, f, exports, post, traits, opts, L, S, res_ids):
     ctx.emit('kani::assert(CALLS_%s == 1, "C05|arg|call: the user function runs exactly once");' % name)
     # ---- checkpoint A: before the user drops what it received ----
     for g, h, r in ctx.borrow_in:
-        hgen.kassert(ctx, g, "hl::count(%d, %s) == 1" % (res_ids[r.name], h),
+        hgen.kassert(ctx, g, "hl::count(%d, %s) == 1" % (res_ids[r.root.name], h),
                      "C07|borrow-in|the borrow handle of an imported resource is dropped exactly once before the export returns")
     for g, h, r in ctx.own_in:
-        hgen.kassert(ctx, g, "hl::count(%d, %s) == 0" % (res_ids[r.name], h),
+        hgen.kassert(ctx, g, "hl::count(%d, %s) == 0" % (res_ids[r.root.name], h),
                      "C07|own-in|an owned handle is not dropped while the user's value still owns it")
     # ---- received value ----
     ctx.emit("let r = REC_%s.take().unwrap();" % name)
@@ -406,11 +435,15 @@ def func_harness(world, f, exports, post, traits, opts, L, S, res_ids):
     ctx.emit("drop(r);")
     # ---- checkpoint B ----
     for g, h, r in ctx.own_in:
-        hgen.kassert(ctx, g, "hl::count(%d, %s) == 1" % (res_ids[r.name], h),
+        hgen.kassert(ctx, g, "hl::count(%d, %s) == 1" % (res_ids[r.root.name], h),
                      "C07|own-in|an owned handle received is dropped exactly once when its Rust value is dropped")
     for g, h, r in ctx.own_out:
-        hgen.kassert(ctx, g, "hl::count(%d, %s) == 0" % (res_ids[r.name], h),
+        hgen.kassert(ctx, g, "hl::count(%d, %s) == 0" % (res_ids[r.root.name], h),
                      "C07|own-out|a handle returned to the host is transferred, not dropped")
+    bex = any(t.kind == "borrow" and t.res.exported for _, t in f.params)
+    if bex and not hs:
+        hgen.kassert(ctx, "true", "hl::HN == 0",
+                     "C07|borrow-exported|a borrow of a resource this component implements is a bare rep: the guest makes no resource.drop call")
     if hs:
         tot = " + ".join("((%s) as usize)" % g for g, _, _ in list(ctx.own_in) + list(ctx.borrow_in))
         hgen.kassert(ctx, "true", "hl::HN == %s" % (tot or "0"), "C07|total|no other handle is dropped")
@@ -442,6 +475,8 @@ def func_harness(world, f, exports, post, traits, opts, L, S, res_ids):
         hgen.interesting_covers(v, covers, "in")
     if gval is not None:
         hgen.interesting_covers(gval, covers, "out")
+    if ctx.fixed:
+        covers = covers[:1]
     for c, what in covers[:7]:
         ctx.emit('kani::cover!(%s, "%s");' % (c, what))
     for sf in struct_fail:
@@ -453,8 +488,8 @@ def func_harness(world, f, exports, post, traits, opts, L, S, res_ids):
     text = "\n".join(["#[kani::proof]", "#[kani::unwind(%d)]" % unwind] + STUBS + ([UTF8_STUB] if uses_str else []) +
                      ["pub fn k_%s() { unsafe {" % name] + ["  " + l for l in body] + ["} }"])
     meta = {"function": f.name, "class": f.cls, "assumes": sorted(ctx.assumes), "unwind": unwind,
-            "props": ["C05", "C06"] + (["C07"] if hs else []), "direction": "export", "L": L,
-            "heap": bool(ctx.in_bufs or ctx.out_bufs or indirect), "handles": bool(hs),
+            "props": ["C05", "C06"] + (["C07"] if (hs or bex) else []), "direction": "export", "L": L,
+            "heap": bool(ctx.in_bufs or ctx.out_bufs or indirect), "handles": bool(hs or bex),
             "stubs": [UTF8_STUB_DOC] if uses_str else []}
     return text, meta
 
@@ -638,6 +673,99 @@ def map_harness(n):
     return text, {"function": "f-map", "class": "map-u8-u32-len%d" % n, "unwind": 3, "props": ["C05", "C06"], "direction": "export",
                   "heap": True, "handles": False,
                   "assumes": ["map<u8,u32>: CONCRETE entry count %d (keys, values and padding bytes symbolic)" % n]}
+
+
+IMP_HOOKS = r"""
+  // what the mock host reads out of argument memory WHILE the import call is in progress
+  pub static mut SEEN: [u64; 8] = [0; 8];
+  pub static mut SEEN_N: usize = 0;
+  pub unsafe fn hook_words(ptr_slot: usize, len_slot: usize, stride: usize, second_off: usize, second_sz: usize) {
+    let p = IMP_P[ptr_slot] as *const u8;
+    let n = IMP_A[len_slot] as usize;
+    SEEN_N = n;
+    if n > 0 { SEEN[0] = ldp(p, 0, 4); if second_sz > 0 { SEEN[1] = ldp(p, second_off, second_sz); } }
+    if n > 1 { SEEN[2] = ldp(p, stride, 4); if second_sz > 0 { SEEN[3] = ldp(p, stride + second_off, second_sz); } }
+  }
+  pub unsafe fn hook_list_handles() { hook_words(0, 1, 4, 0, 0); }
+  pub unsafe fn hook_list_handle_records() { hook_words(0, 1, 8, 4, 4); }
+  pub unsafe fn hook_option_map() { if IMP_A[0] == 1 { hook_words(1, 2, 16, 8, 8); } }
+  pub unsafe fn hook_list_map() {
+    // list<map<u32,u64>>: (ptr, len) of the outer list; element 0 = (entries ptr, entries len)
+    let p = IMP_P[0] as *const u8;
+    SEEN_N = IMP_A[1] as usize;
+    if SEEN_N > 0 {
+      let ep = *(p as *const *const u8); let el = ldp(p, 8, 8);
+      SEEN[4] = el;
+      if el > 0 { SEEN[0] = ldp(ep, 0, 4); SEEN[1] = ldp(ep, 8, 8); }
+    }
+  }
+"""
+
+
+def import_own_lists_harness(res, kind):
+    """C07/C05, import direction: own handles inside list<own<r>> / list<record { h: own<r>, n: u32 }> parameters"""
+    c = camel(res.name)
+    return "\n".join(["#[kani::proof]", "#[kani::unwind(4)]", """pub fn k_imp_own_lists() { unsafe {
+    let h1: u32 = kani::any(); kani::assume(h1 != 0 && h1 != u32::MAX);
+    let h2: u32 = kani::any(); kani::assume(h2 != 0 && h2 != u32::MAX && h2 != h1);
+    let n1: u32 = kani::any(); let n2: u32 = kani::any();
+    let n: usize = kani::any(); kani::assume(n <= 2);
+    let recs: bool = kani::any();
+    led::begin();
+    if !recs {
+      let mut v = Vec::new();
+      if n > 0 { v.push(mi::%(c)s::from_handle(h1)); }
+      if n > 1 { v.push(mi::%(c)s::from_handle(h2)); }
+      IMP_HOOK = Some(hook_list_handles);
+      mi::eat_list(v);
+    } else {
+      let mut v = Vec::new();
+      if n > 0 { v.push(mi::Rhi { h: mi::%(c)s::from_handle(h1), n: n1 }); }
+      if n > 1 { v.push(mi::Rhi { h: mi::%(c)s::from_handle(h2), n: n2 }); }
+      IMP_HOOK = Some(hook_list_handle_records);
+      mi::eat_recs(v);
+    }
+    kani::assert(IMP_CALLS == 1, "C05|arg|call: the import is called exactly once");
+    kani::assert(SEEN_N == n, "C05|arg|len");
+    kani::assert(n == 0 || SEEN[0] == h1 as u64, "C07|import-own|the host receives exactly the handles the guest passed");
+    kani::assert(n <= 1 || SEEN[2] == h2 as u64, "C07|import-own|the host receives exactly the handles the guest passed");
+    kani::assert(!recs || n == 0 || SEEN[1] == n1 as u64, "C05|arg|value");
+    kani::assert(!recs || n <= 1 || SEEN[3] == n2 as u64, "C05|arg|value");
+    kani::assert(hl::HN == 0, "C07|import-own|owned handles transferred inside a list are not dropped by the guest");
+    kani::assert(!led::NATIVE || led::LIVE == 0, "C06|leak|native ledger: no block is live at the end");
+    kani::cover!(!recs && n == 2, "two handles"); kani::cover!(recs && n == 2, "two records"); kani::cover!(n == 0, "empty list");
+    // @DISPATCH@
+  } }""" % {"c": c}]), {
+        "function": "ri: eat-list / eat-recs", "class": "import-list-own", "assumes": ["handle indices are non-zero table indices below u32::MAX"],
+        "unwind": 4, "props": ["C07", "C05", "C06"], "direction": "import", "heap": True, "handles": True}
+
+
+def import_maps_harness(which):
+    """C06/C05, import direction: a map lowered INSIDE another type (option / list) must still be live during the call.
+    Concrete entry count 1 (symbolic key and value)."""
+    call = {"option": "mi::put_map(Some(&m));", "list": "mi::put_maps(core::slice::from_ref(&m));"}[which]
+    hook = {"option": "hook_option_map", "list": "hook_list_map"}[which]
+    extra = {"option": 'kani::assert(IMP_A[0] == 1 && SEEN_N == 1, "C05|arg|len");',
+             "list": 'kani::assert(SEEN_N == 1 && SEEN[4] == 1, "C05|arg|len");'}[which]
+    return "\n".join(["#[kani::proof]", "#[kani::unwind(3)]", """pub fn k_imp_%(w)s_map() { unsafe {
+    let k: u32 = kani::any(); let v: u64 = kani::any();
+    led::begin();
+    let mut m = wit_bindgen::rt::Map::new();
+    m.insert(k, v);
+    IMP_HOOK = Some(%(hook)s);
+    %(call)s
+    kani::assert(IMP_CALLS == 1, "C05|arg|call: the import is called exactly once");
+    %(extra)s
+    kani::assert(SEEN[0] == k as u64, "C05|arg|value");
+    kani::assert(SEEN[1] == v, "C05|arg|value");
+    drop(m);
+    kani::assert(!led::NATIVE || led::LIVE == 0, "C06|leak|native ledger: no block is live at the end");
+    kani::cover!(true, "reached the end");
+    // @DISPATCH@
+  } }""" % {"w": which, "hook": hook, "call": call, "extra": extra}]), {
+        "function": "ri: put-map%s" % ("s" if which == "list" else ""), "class": "import-%s-map-u32-u64-len1" % which,
+        "assumes": ["map<u32,u64>: CONCRETE entry count 1 (key and value symbolic)"],
+        "unwind": 3, "props": ["C06", "C05"], "direction": "import", "heap": True, "handles": False}
 
 
 # --------------------------------------------------------------------------
@@ -871,7 +999,7 @@ def build_lib(world, w_rs, opts, L, S, tier, nl=None):
     exports, post = hgen.parse_exports(mod_text)
     res_ids = {}
     for r in world.imp_res + world.exp_res:
-        res_ids[r.name] = len(res_ids) + 1
+        res_ids[r.root.name] = len(res_ids) + 1
     harnesses, problems = {}, []
     parts = []
     for f in world.funcs:
@@ -901,24 +1029,36 @@ def build_lib(world, w_rs, opts, L, S, tier, nl=None):
     for r in world.imp_res:
         c = camel(r.name)
         text, meta = seq_harness("k_res_seq_%s" % snake(r.name), "mi::%s::from_handle(h)" % c, "r.take_handle()", "r.handle()",
-                                 res_ids[r.name], "imported-resource-wrapper")
+                                 res_ids[r.root.name], "imported-resource-wrapper")
         harnesses["k_res_seq_%s" % snake(r.name)] = dict(meta, text=text)
         parts.append(text)
     for r in world.exp_res:
         c = camel(r.name)
         text, meta = seq_harness("k_res_seq_%s" % snake(r.name), "m::%s::from_handle(h)" % c, "r.take_handle()", "r.handle()",
-                                 res_ids[r.name], "exported-resource-own-handle")
+                                 res_ids[r.root.name], "exported-resource-own-handle")
         harnesses["k_res_seq_%s" % snake(r.name)] = dict(meta, text=text)
         parts.append(text)
         if any(f.special == "re-pass" for f in world.funcs):
             parts.append(RE_PASS_USER.replace("@C@", c))
-            text, meta = lifecycle_harness(r, res_ids[r.name])
+            text, meta = lifecycle_harness(r, res_ids[r.root.name])
             harnesses["k_res_export_lifecycle"] = dict(meta, text=text)
             parts.append(text)
-    if world.imp_res and world.imp_funcs:
+    imp_names = {f.name for f in world.imp_funcs}
+    if world.imp_funcs:
+        parts.append(IMP_HOOKS)
+    if world.imp_res and "eat" in imp_names:
         text, meta = import_calls_harness(world.imp_res[0], res_ids[world.imp_res[0].name])
         harnesses["k_res_import_calls"] = dict(meta, text=text)
         parts.append(text)
+    if world.imp_res and "eat-list" in imp_names:
+        text, meta = import_own_lists_harness(world.imp_res[0], res_ids[world.imp_res[0].name])
+        harnesses["k_imp_own_lists"] = dict(meta, text=text)
+        parts.append(text)
+    for which, fn in (("option", "put-map"), ("list", "put-maps")):
+        if fn in imp_names:
+            text, meta = import_maps_harness(which)
+            harnesses["k_imp_%s_map" % which] = dict(meta, text=text)
+            parts.append(text)
     for k, v in harnesses.items():
         soft, n = soften(v["text"])
         for i, p in enumerate(parts):
